@@ -5,8 +5,10 @@ From Coq Require Import List Arith Bool.
 Import ListNotations.
 From Onet Require Export Base.Corr Net.Peers Net.PeersSpec.
 
-(* Which variant of the model the pinned code is compared with.  The integrator
-   flips this to [true] when proposed_fixes/C17-F25.diff lands in /repo. *)
+(* Which variant of the model /repo is compared with.  [true] since the repair of
+   F25 landed in /repo (commit ff36148 "fix: valid peers are filtered on the id
+   derived from the public key"); the F25 witnesses stay in the harness corpus and
+   would be reported as VIOLATION (not as a known finding) if the defect returned. *)
 Definition code_fixed_F25 := true.
 
 (* Canonical numbering used by the harness: key k (0-based index in the key
